@@ -6,6 +6,7 @@ From Verif Require Import Interp.RunCompat Interp.RunLink.
 From Verif Require Import Interp.RunATPClient.
 From Verif Require Import Interp.RunAtpsrv Interp.RunAtpxp.
 From Verif Require Import Interp.RunC04 Interp.RunC12.
+From Verif Require Import Interp.RunC17.
 Open Scope string_scope.
 
 Definition run_case (x : sexp) : sexp :=
@@ -28,6 +29,7 @@ Definition run_case (x : sexp) : sexp :=
         else if String.eqb fam "c04s" then run_c04s_case payload
         else if String.eqb fam "c12" then run_c12_case payload
         else if String.eqb fam "c12s" then run_c12s_case payload
+        else if String.eqb fam "c17" then run_c17_case payload
         else bad "unknown family" in
       Ls [At "obs"; id; r]
   | _ => bad "not a case"
